@@ -1404,9 +1404,6 @@ func exchangeServiceInfoRound(ctx context.Context, transport Transport, mtu uint
 		}
 		if errors.Is(err, serviceinfo.ErrSizeTooSmall) {
 			msg.IsMoreServiceInfo = true
-			if maxRead == mtu {
-				msg.IsMoreServiceInfo = false // likely due to a yield... but also could be a malicious large key?
-			}
 			break
 		}
 		if err != nil {
